@@ -10,11 +10,8 @@ PROP = "C08"
 def run(tier):
     c = Check(PROP, tier)
     cov = objcommon.run(c, tier)
-    try:
-        from props import grammar
-        cov.update(grammar.run_for(c, tier, PROP))
-    except ImportError:
-        cov["program_space"] = "not built yet: only the hand-written reference family (harness/objfam) is exercised in this round"
+    from props import castmatrix
+    cov.update(castmatrix.run(c, tier))
     c.finish(cov)
 
 
